@@ -262,7 +262,16 @@ def run_toy_case(case, res):
                 return
         if sim.is_done() or k >= case["max_steps"]:
             break
-        sim.step()
+        if case.get("size"):
+            # on a machine with a SMALLER memory a (self-modified) instruction may name a cell that does not exist: that
+            # step fails by design - the displayed values up to there were judged, the case ends
+            try:
+                sim.step()
+            except Exception:
+                res.count("toy_small_memory_step_failed")
+                break
+        else:
+            sim.step()
         k += 1
     if len(sim.state.memory.memory_file) >= 2:
         res.nontrivial(h64(case))
